@@ -1,0 +1,28 @@
+//go:build verif
+// +build verif
+
+package keystore
+
+// Thin exported accessors for the verification harness (/verif, engine ks). No logic of their own.
+
+// VerifPath returns (branch, index) of the derivation path of a managed address.
+func (mAddr *ManagedAddress) VerifPath() (uint32, uint32) {
+	return mAddr.derivationPath.Branch, mAddr.derivationPath.Index
+}
+
+// VerifNextIndexes returns the cached next external / internal child numbers.
+func (a *AddrManager) VerifNextIndexes() (uint32, uint32) {
+	return a.branchInfo.nextExternalIndex, a.branchInfo.nextInternalIndex
+}
+
+// VerifLoadPrivKeys = checkPassword + updatePrivKeys: leaves the private account key in memory, so
+// that nextAddresses derives new addresses from private material.
+func (a *AddrManager) VerifLoadPrivKeys(pass []byte) error {
+	if err := a.checkPassword(pass); err != nil {
+		return err
+	}
+	return a.updatePrivKeys(pass)
+}
+
+// VerifHasAcctPriv reports whether the private account key is held in memory.
+func (a *AddrManager) VerifHasAcctPriv() bool { return a.acctInfo.acctKeyPriv != nil }
